@@ -369,6 +369,15 @@ def _poly_pairs(tier):
             for b in l1s[:60] if tier == 'thorough' else l1s[:12]:
                 pairs.append(Eq(term.plus(R)(a, c_), b))
                 pairs.append(Eq(term.times(R)(a, c_), b))
+    # powers whose natural-number exponent contains a truncated subtraction (1 - 2 = 0 at nat): the exponent must be normalised as a nat
+    mN, pN = term.minus(NatType), term.plus(NatType)
+    exps = [pN(mN(Nat(1), Nat(2)), Nat(2)), mN(Nat(3), mN(Nat(1), Nat(2))), pN(mN(Nat(2), Nat(3)), Nat(1)), mN(Nat(3), Nat(1)),
+            pN(mN(Nat(0), Nat(1)), Nat(3)), mN(Nat(4), pN(mN(Nat(1), Nat(3)), Nat(1)))]
+    for base in (x, Real(2)):
+        rhss = [Real(1), base] + [term.nat_power(R)(base, Nat(k)) for k in (2, 3, 4)]
+        for e_ in exps:
+            for r_ in rhss:
+                pairs.append(Eq(term.nat_power(R)(base, e_), r_))
     _P[tier] = pairs
     return pairs
 
